@@ -34,9 +34,15 @@ func newMemStore() *memStore {
 	return &memStore{chunks: map[desync.ChunkID][]byte{}, fail: map[int]bool{}}
 }
 
+// memStoreHook, when set, is called at every call of every memStore (C07: cancellation from inside a store call)
+var memStoreHook func()
+
 func (s *memStore) tick(op string) bool {
 	k := s.calls
 	s.calls++
+	if h := memStoreHook; h != nil {
+		h()
+	}
 	if s.onCall != nil {
 		s.onCall(k)
 	}
@@ -265,6 +271,51 @@ func runC07(cfg Config) {
 				if r.err != nil && !isInterrupted(r.err) && k < total && !strings.HasPrefix(f.name, "VerifyIndex") && r.err.Error() != "hang" {
 					// any error is acceptable for the property; note unusual ones
 					rep.Histogram["other-error:"+f.name]++
+				}
+			}
+		}
+	}
+
+	// cancellation from inside the k-th store call (HasChunk / GetChunk / StoreChunk of whichever store the
+	// operation talks to), for every k incl. the calls of the very last jobs: the feeder has nothing left to
+	// flag then, the workers themselves must not drop their job quietly
+	for _, f := range fns {
+		if strings.HasPrefix(f.name, "VerifyIndex") || strings.HasPrefix(f.name, "AssembleFile+seed") {
+			continue // no store involved
+		}
+		for _, n := range ns {
+			var total int64
+			memStoreHook = func() { atomic.AddInt64(&total, 1) }
+			f.run(context.Background(), n)
+			memStoreHook = nil
+			T := int(total)
+			for k := 0; k < T; k++ {
+				if T > 70 && k%((T+59)/60) != 0 && k < T-8 {
+					continue
+				}
+				ctx, cancel := context.WithCancel(context.Background())
+				var hits int64
+				memStoreHook = func() {
+					if int(atomic.AddInt64(&hits, 1))-1 == k {
+						cancel()
+					}
+				}
+				done := make(chan result, 1)
+				go func() { done <- f.run(ctx, n) }()
+				var r result
+				select {
+				case r = <-done:
+				case <-time.After(20 * time.Second):
+					r = result{errors.New("hang"), false, "no return within 20 s"}
+					monitor("operation hangs after cancellation", fmt.Sprintf("cancel fn=%s n=%d at-store-call=%d", f.name, n, k))
+				}
+				memStoreHook = nil
+				cancel()
+				caseLine := fmt.Sprintf("cancel fn=%s n=%d at-store-call=%d of %d", f.name, n, k, T)
+				rep.Count(caseLine, true, "fn:"+f.name+"/store-call", fmt.Sprintf("outcome:%s", map[bool]string{true: "nil", false: "error"}[r.err == nil]))
+				if r.err == nil && !r.complete {
+					monitor(fmt.Sprintf("%s reported success although its work is incomplete (%s)", f.name, r.detail), caseLine)
+					break
 				}
 			}
 		}
